@@ -71,13 +71,13 @@ func init() {
 				W:       weights(Weights{"update-ref": 5, "branch": 4, "branch-rename": 3, "reset": 6, "junk": 6, "switch-c": 2, "commit-inject": 4, "fd-swap": 4, "restore": 6}),
 				Oracles: []HistOracle{orC03}, PreReset: true, AbsRefine: true}
 		})
-	checks["C04"] = histCheck("C04", []string{"C04.update_membership", "C04.update_perm", "C04.update_same_noop", "C04.delete_exact", "C04.eraseIdx_canonical", "C04.sortEntries_sorted", "C06.getEntry_correct", "C04.rm_exact", "C04.rmArgs_exact", "C04.rm_unknown_refused", "C04.addArgs_frame", "C04.add_file_staged", "C04.update_canonical", "C04.delete_frame", "C04.add_dir_staged", "C04.addFold_staged"}, histRule,
+	checks["C04"] = histCheck("C04", []string{"C04.update_membership", "C04.world_add_frame", "C04.world_rm_frame", "C04.update_perm", "C04.update_same_noop", "C04.delete_exact", "C04.eraseIdx_canonical", "C04.sortEntries_sorted", "C06.getEntry_correct", "C04.rm_exact", "C04.rmArgs_exact", "C04.rm_unknown_refused", "C04.addArgs_frame", "C04.add_file_staged", "C04.update_canonical", "C04.delete_frame", "C04.add_dir_staged", "C04.addFold_staged"}, histRule,
 		func(ctx *Ctx) *HistCfg {
 			return &HistCfg{Prop: "C04", Cases: tierN(ctx, 200, 2000), MinSteps: 8, MaxSteps: 30,
 				W:       weights(Weights{"add": 25, "rm": 12, "write": 20, "rmfile": 8, "rmdir": 4, "reset": 1, "twins": 4, "junk": 0}),
 				Oracles: []HistOracle{orC04, orC06}, Idempotent: true}
 		})
-	checks["C02"] = histCheck("C02", []string{"C02.flatten_writeTree", "C02.build_ne_nil", "C02.subtrees_wellformed", "C05.readback_writeTree", "C05.walk_write", "C05.holds_storeAfter", "C01.get_put", "C02.commitCmd_ok", "C02.commit_readback", "C02.commitMake_ok", "C05.reset_readback", "C12.commit_parse_format"}, histRule,
+	checks["C02"] = histCheck("C02", []string{"C02.flatten_writeTree", "C02.world_commit_frame", "C02.build_ne_nil", "C02.subtrees_wellformed", "C05.readback_writeTree", "C05.walk_write", "C05.holds_storeAfter", "C01.get_put", "C02.commitCmd_ok", "C02.commit_readback", "C02.commitMake_ok", "C05.reset_readback", "C12.commit_parse_format"}, histRule,
 		func(ctx *Ctx) *HistCfg {
 			return &HistCfg{Prop: "C02", Cases: tierN(ctx, 200, 2000), MinSteps: 8, MaxSteps: 30,
 				W:       weights(Weights{"commit": 20, "add": 18, "add-all": 6, "twins": 3, "junk": 0}),
@@ -95,13 +95,13 @@ func init() {
 				W:       weights(Weights{"commit": 16, "reset": 14, "rename-reset": 4, "edit-same-size": 8, "switch": 3, "switch-c": 2, "rmdir": 4, "rmfile": 5, "junk": 0}),
 				Oracles: []HistOracle{orC08}, PreReset: true}
 		})
-	checks["C09"] = histCheck("C09", []string{"C09.restore_only_tracked", "C09.restore_named", "C09.restore_unknown_refused", "C06.isDir_iff", "C06.mem_byDir", "C06.getEntry_correct", "C04.update_membership", "C04.delete_exact", "C09.restoreStaged_exact", "C09.restoreStaged_unknown_refused", "C09.restoreIndexOne_spec", "C09.restoreIndexOne_refused_iff", "C09.rsFold_spec"}, histRule,
+	checks["C09"] = histCheck("C09", []string{"C09.restore_only_tracked", "C09.world_restore_frame", "C09.world_restore_staged_frame", "C09.restore_named", "C09.restore_unknown_refused", "C06.isDir_iff", "C06.mem_byDir", "C06.getEntry_correct", "C04.update_membership", "C04.delete_exact", "C09.restoreStaged_exact", "C09.restoreStaged_unknown_refused", "C09.restoreIndexOne_spec", "C09.restoreIndexOne_refused_iff", "C09.rsFold_spec"}, histRule,
 		func(ctx *Ctx) *HistCfg {
 			return &HistCfg{Prop: "C09", Cases: tierN(ctx, 200, 2000), MinSteps: 10, MaxSteps: 35,
 				W:       weights(Weights{"restore": 20, "commit": 8, "rmfile": 8, "rmdir": 5, "write": 16, "add": 14, "rm": 4, "fd-swap": 4, "edit-same-size": 4, "twins": 5, "junk": 0}),
 				Oracles: []HistOracle{orC09}}
 		})
-	checks["C10"] = histCheck("C10", []string{"C03.inv_run", "C03.inv_step", "C10.getBranchPos_correct", "C10.add_ok", "C10.add_dup", "C10.add_invalid", "C10.delete_ok", "C10.delete_current_refused", "C10.delete_unknown_refused", "C10.update_ok", "C10.update_unknown_refused", "C10.rename_ok", "C10.rename_dup_refused", "C10.others_keep", "C10.updateRef_spec", "C10.create_refused", "C10.delete_refused", "C10.switch_spec", "C10.add_lookup", "C10.delete_lookup", "C10.update_lookup", "C10.rename_lookup", "C10.add_refines", "C10.delete_refines", "C10.update_refines"}, histRule,
+	checks["C10"] = histCheck("C10", []string{"C03.inv_run", "C10.world_others_keep", "C03.inv_step", "C10.getBranchPos_correct", "C10.add_ok", "C10.add_dup", "C10.add_invalid", "C10.delete_ok", "C10.delete_current_refused", "C10.delete_unknown_refused", "C10.update_ok", "C10.update_unknown_refused", "C10.rename_ok", "C10.rename_dup_refused", "C10.others_keep", "C10.updateRef_spec", "C10.create_refused", "C10.delete_refused", "C10.switch_spec", "C10.add_lookup", "C10.delete_lookup", "C10.update_lookup", "C10.rename_lookup", "C10.add_refines", "C10.delete_refines", "C10.update_refines"}, histRule,
 		func(ctx *Ctx) *HistCfg {
 			return &HistCfg{Prop: "C10", Cases: tierN(ctx, 250, 2500), MinSteps: 10, MaxSteps: 40,
 				W: weights(Weights{"branch": 10, "branch-rename": 6, "branch-delete": 6, "branch-list": 4, "switch": 8, "switch-c": 5, "update-ref": 6,
@@ -146,13 +146,13 @@ func init() {
 					return []string{"a", "build", "mybuild", "x.log", "y.tmp", "z.c", "src", "out", "a.goit", "my.goit", "log", "b.o"}
 				}}
 		})
-	checks["C18"] = histCheck("C18", []string{"C18.getEntry_never_crashes", "C18.getBranchPos_never_crashes", "C18.update_never_crashes", "C18.delete_never_crashes", "C18.get_never_crashes", "C19.decodeEntries_bounded"}, histRule+"; malformed and refused invocations are weighted up",
+	checks["C18"] = histCheck("C18", []string{"C18.getEntry_never_crashes", "C18.world_readers_change_nothing", "C18.getBranchPos_never_crashes", "C18.update_never_crashes", "C18.delete_never_crashes", "C18.get_never_crashes", "C19.decodeEntries_bounded"}, histRule+"; malformed and refused invocations are weighted up",
 		func(ctx *Ctx) *HistCfg {
 			return &HistCfg{Prop: "C18", Cases: tierN(ctx, 250, 3000), MinSteps: 5, MaxSteps: 40,
 				W:       weights(Weights{"junk": 14, "status": 5, "reflog": 4, "log": 3, "branch-rename": 4, "reset": 6, "rm": 6, "restore": 6}),
 				Oracles: []HistOracle{orC18}, NoIdent: 15, FreshPct: 35, JunkSweep: true}
 		})
-	checks["C20"] = histCheck("C20", []string{"C20.parse_render", "C20.add_get", "C20.local_overrides_global", "C20.global_fallback", "C20.isUserSet_iff", "C20.add_cfgOK", "C20.config_set_roundtrip", "C20.configCmd_ok", "C20.configCmd_roundtrip", "C20.configCmd_refused"}, histRule,
+	checks["C20"] = histCheck("C20", []string{"C20.parse_render", "C20.world_only_config_writes_config", "C20.add_get", "C20.local_overrides_global", "C20.global_fallback", "C20.isUserSet_iff", "C20.add_cfgOK", "C20.config_set_roundtrip", "C20.configCmd_ok", "C20.configCmd_roundtrip", "C20.configCmd_refused"}, histRule,
 		func(ctx *Ctx) *HistCfg {
 			return &HistCfg{Prop: "C20", Cases: tierN(ctx, 200, 2000), MinSteps: 6, MaxSteps: 25,
 				W:       Weights{"config": 30, "commit": 10, "write": 10, "add-all": 8, "status": 1},
